@@ -1,4 +1,5 @@
 import BigDec.Model.Float
+import BigDec.Model.ToF64
 import BigDec.Spec.Float
 import BigDec.Spec.Exact
 import BigDec.Driver.Proto
@@ -99,7 +100,10 @@ def handle (op : String) (args : List String) (impl : String) : Verdict :=
       else match parseNat? impl with
         | some bits =>
           let (ok, why) := toF64OK x bits
-          { model := "", mi := ok, si := ok, note := if ok then "" else why,
+          -- bit-exact model of to_f64 (correctly rounded primitives in exact rational arithmetic)
+          let mbits := F64.toF64 (decide (x.int < 0)) x.int.natAbs x.scale
+          let (mok, _) := toF64OK x mbits
+          { model := toString mbits, mi := mbits == bits, si := ok, sm := mok, note := if ok then "" else why,
             tag := "tof64" ++ (if x.scale == 0 then ":int" else if x.scale.natAbs ≥ 2 ^ 31 - 64 then ":beyond-i32" else if (x.scale.natAbs > 330) then ":extreme" else ":frac"),
             trivial := x.int == 0 }
         | none => badInput "tof64 impl"
